@@ -169,7 +169,7 @@ def _e1(arg):
     return len(progs), judged, ill, len(fails), out, len(outcomes), gstat
 
 
-def _gcc_validate(jobs):
+def _gcc_validate(jobs, tool="gcc"):
     """gcc decides which code lines survive; must equal the reference's code-line set.
     Programs the reference accepts but gcc diagnoses are oracle disagreements too."""
     segs = []
@@ -180,7 +180,7 @@ def _gcc_validate(jobs):
         for i, ev in enumerate(program):
             seg.append(f"L{si}_{i + 1}_" if ev[0] == "code" else cond.render(ev, i + 1))
         segs.append(seg)
-    out, diags = gcc.run_batch(segs)
+    out, diags = gcc.run_batch(segs, tool=tool)
     alive = {}
     for m in re.finditer(r"\bL(\d+)_(\d+)_", out):
         alive.setdefault(int(m.group(1)), set()).add(int(m.group(2)))
